@@ -212,6 +212,29 @@ def rule_MP3(rep, prog):
     rep.require(rid, ok2, fn.file, fn.name, "relinquish-after-apply", "the reserved width must be relinquished after _dispatch_apply_f returns on every path", sample={"apply_f": len(af)})
 
 
+def rule_SB4(rep, prog):
+    rid = rep.rule("C10-SB4", "dispatch_apply on a custom queue submits itself as a NON-barrier item (dispatch_sync_f, never a barrier variant - an apply issued from an "
+                   "item already running on that concurrent queue would wait for itself); DISPATCH_APPLY_AUTO resolves the caller's hierarchy down to its root "
+                   "queue by a loop over do_targetq", floor=3)
+    fn = prog.fn("dispatch_apply_f")
+    rep.saw(fn)
+    subs = [c for c in fn.all_insts() if c.op == "call" and c.callee and any(o[0] == "f" and o[1] in ("_dispatch_apply_serial", "_dispatch_apply_redirect") for o in c.ops)]
+    if len(subs) < 2:
+        rep.unknown(rid, "expected the apply to delegate to the custom queue at least twice in dispatch_apply_f (found %d)" % len(subs))
+    for c in subs:
+        rep.require(rid, c.callee == "dispatch_sync_f", c.loc, fn.name, "apply-submitted-as-barrier",
+                    "dispatch_apply_f submits the apply to its queue through %s instead of dispatch_sync_f: as a barrier it has to wait for every running item of "
+                    "the queue - including the item that issued it, which already holds one unit of the queue's width: no iteration runs and the call never "
+                    "returns" % c.callee, sample={"via": c.callee, "at": c.loc})
+    fn = prog.fn("_dispatch_apply_root_queue")
+    rep.saw(fn)
+    lds = [l for l in fn.all_insts() if l.op == "load" and "do_targetq" in prog.fields(l)]
+    rep.require(rid, bool(lds) and any(fn.inst_reaches(l, l) for l in lds), fn.file + ":" + str(fn.d.get("line")), fn.name, "apply-auto-root-walk-not-a-loop",
+                "_dispatch_apply_root_queue no longer walks do_targetq in a loop: from a queue two or more levels above its root DISPATCH_APPLY_AUTO stops at an "
+                "intermediate queue of the caller's own hierarchy; if that queue is serial the caller already owns it and the apply traps instead of running",
+                sample={"target_loads": len(lds)})
+
+
 def run(rep, tier="quick", srcdir=None, only=None):
     prog, units = load(UNITS, tier, srcdir)
     rep.units = units
@@ -222,6 +245,8 @@ def run(rep, tier="quick", srcdir=None, only=None):
         rule_MP2(rep, prog)
     if want("C10-MP3"):
         rule_MP3(rep, prog)
+    if want("C10-SB4"):
+        rule_SB4(rep, prog)
     if want("C18-MP4"):
         # the invocations behave as items OF the submitting queue: helper threads run through the redirect invoke that installs that queue's
         # thread frame (shared with C18)
